@@ -38,6 +38,11 @@ CHECKS = {
         "DESIGN.md section 4 (C11)",
         "Route (c) evidence for Dy != Dw is an open known finding (K01) with an exact predictor; any other discrepancy still fires.",
     ),
+    "C15": (
+        "deterministic simulation: twin runs of one seeded history under the 'skip the fast path' perturbation - a specialised object (diagonal / identity-mean / rank-one / linear / constant / NN-controlled) is swapped for the general full-matrix object with the same parameters at a seeded step",
+        "Seeded search over histories on specialised roots and over swap schedules (root only / mid-history / all). Every observation and every exposed attribute of the perturbed execution must equal the unperturbed one; I_coh on every object. Because both twins may share a defect, the numpy step invariant runs alongside. Exploration level.",
+        "DESIGN.md section 4 (C15)",
+    ),
     "C19": (
         "deterministic simulation: simulator-owned PRNG key stream; sample() calls interleaved with rekey / warm / evict / restore faults and eager-vs-jit context flips; replay (bit-exact), structural (affine image of the key's normal stream) and 6-sigma statistical oracles",
         "Seeded search over histories that reach densities through constructors, products, slicing, conditioning and transformations, then draw with simulator-owned keys. Replaying the same (density, key, n) later in the history is bit-identical; twins under interleaved sampling and cache faults agree; draws are mu + L z with L L' = Sigma for the key's own normal stream (abstains if another valid use of the stream is made); moments within 6 standard errors for fixed keys. Exploration level.",
